@@ -33,7 +33,7 @@ CHECKS = {
              "and everything built on it: factories, convenience methods, add_record / update / flattened, add_attributes, set_time, "
              "add_asserted_type), starting from nothing, every record of every container is in normal form and every namespace manager "
              "satisfies the C03 invariant (induction over the sequence; hstep_normal per operation). Tied to /repo by op-sequence correspondence over all 18 "
-             "kinds x entry paths (new_record, 22 factories, 13 convenience methods) plus a direct normal-form oracle on the real records.",
+             "kinds x entry paths (new_record, 22 factories, 13 convenience methods) plus a direct normal-form oracle on the real records. Props/C05R: c05_reach_normal - the normal form also holds of every record of every state reachable through add_record, update, add_bundle, flattened() and unified() (Reach), not only through construction and attribute additions.",
         note=A_COMMON + " float() and dateutil lexical mappings are assumptions (A-LEX), sampled. The membership multi-entity compatibility "
              "path is not claimed (property text). set_time is a setter: it replaces the slot, it does not refuse.",
         technique="Lean 4 invariant preservation proof over attribute-pair lists + op-sequence correspondence + normal-form oracle",
